@@ -719,6 +719,7 @@ class Session:
             if exc is None:
                 self.v(f"C08|{K}|focus_position=invalid:{pt}|accepted", f"{K} cid={n.cid} children {n.children()}: focus_position={pos!r} was accepted; reads back {after[n.cid][0]!r}")
                 self.stop = "state-corrupted-by-reported-violation"
+                return
             elif not isinstance(exc, IndexError):
                 self.v(f"C08|{K}|focus_position=invalid:{pt}|raise:{type(exc).__name__}", f"{K} cid={n.cid} children {n.children()}: focus_position={pos!r} raised {type(exc).__name__}: {exc}")
             if not self.snap_eq(before, after):
